@@ -167,6 +167,7 @@ func runC08(w *core.World, r *core.Report) {
 	r.Rule("R3", "browse out of range: GetAt/applyPage/shiftMenu in bounds, BrowseError reported and handled by Vm.Render")
 	r.Rule("R4", "byte indices in vm's input validation functions are in bounds")
 	r.Rule("R5", "cache size accounting rules (C09 R4-R6)")
+	r.Rule("R10", "a gracefully ended session is always unwound (C20 R2): every non-error return of Flush passes the reset or the exiting==false edge - an ended but un-unwound session descends into its own node on the next request")
 	r.Rule("R9", "the code the engine records after a run is the run's result, recorded on the run's success edge only")
 	r.Rule("R8", "every map written on the request path is non-nil: fresh, a cache frame, a field made by every constructor and writer, or memDb.store (Connect first, assumed)")
 	r.Rule("R7", "every index/slice expression in functions reachable from the entry points is proved in bounds (zone engine + checked class invariants and summaries)")
@@ -263,6 +264,7 @@ func runC08(w *core.World, r *core.Report) {
 	checkMapWrites(w, r, "R8", reach)
 	// ---- R9 -----------------------------------------------------------------------------------
 	checkCodeRecordedFromRun(w, r, "R9")
+	checkFlushResetsOnGracefulEnd(w, r, "R10")
 	if os.Getenv("VISCHECK_EXPLORE") == "implicit" {
 		exploreImplicit(w, r, reach)
 	}
